@@ -2,6 +2,8 @@ package html
 
 import (
 	"html/template"
+
+	"go.pennock.tech/tabular"
 )
 
 type vfTok struct {
@@ -448,4 +450,102 @@ func VerifC06_afterfailure() {
 	vfAssert(vfAnd(errB2 == nil, outB == refB), "other-table-after-failure-is-its-own-document")
 	outA, errA2 := a.Render()
 	vfAssert(vfAnd(errA2 == nil, outA == refA), "same-wrapper-after-failure-is-its-own-document")
+}
+
+// VerifC06_dictionary: strings that already look like markup, entities, comments or attribute
+// break-outs, in every position at once (class, id, caption, a header, a cell): each decodes back to
+// exactly the supplied string (an entity look-alike stays the literal characters the caller gave).
+func VerifC06_dictionary() {
+	dict := []string{"&lt;b&gt;", "&amp;amp;", "&#60;i&#62;", "&#x3c;script", "&notit;", "&nbsp;&mdash;", "<!-- x -->",
+		"</td></tr><tr>", "]]>", "&", "&&amp", "' onclick='x", "\" onmouseover=\"x", "é世界<", "a=b c", "&lt", "{{.}}", "\\x3c"}
+	d := dict[vfChoice("entry", len(dict))]
+	ht := New()
+	ht.Class, ht.Id, ht.Caption = d, d, d
+	ht.AddHeaders(d, "h")
+	ht.AddRowItems("c", d)
+	out, err := ht.Render()
+	vfObserveStr("out", out)
+	vfAssert(err == nil, "render-ok")
+	if err != nil {
+		return
+	}
+	toks, ok := vfTokenize(out)
+	vfAssert(ok, "well-formed-and-no-raw-markup-from-text")
+	if !ok {
+		return
+	}
+	want := []string{d, d, "h", "c", d}
+	var texts []string
+	ntable := 0
+	for _, tk := range toks {
+		if tk.tag {
+			if tk.name == "table" {
+				ntable++
+				vfAssert(len(tk.attrs) == 4, "no-other-attributes")
+				if len(tk.attrs) == 4 {
+					vfAssert(vfAnd(tk.attrs[0] == "class", tk.attrs[1] == d), "attribute-decodes-to-supplied-string")
+					vfAssert(vfAnd(tk.attrs[2] == "id", tk.attrs[3] == d), "attribute-decodes-to-supplied-string")
+				}
+			} else {
+				vfAssert(len(tk.attrs) == 0, "no-other-attributes")
+			}
+			continue
+		}
+		if !vfIsSpace(tk.text) {
+			texts = append(texts, tk.text)
+		}
+	}
+	vfAssert(ntable == 1, "skeleton-as-documented")
+	vfAssert(len(texts) == len(want), "skeleton-as-documented")
+	if len(texts) == len(want) {
+		for i := range want {
+			vfAssert(texts[i] == want[i], "text-decodes-to-supplied-string")
+		}
+	}
+}
+
+// VerifC06_sharedrow: the row-class generator sees the position of the row in the table being
+// rendered, also for a row object that was (also) added to another table or twice to this one.
+func VerifC06_sharedrow() {
+	ht := New()
+	other := tabular.New()
+	r := tabular.NewRow()
+	r.Add(tabular.NewCell("shared"))
+	var wantGen []int
+	switch vfChoice("history", 3) {
+	case 0: // added to the other table (as its third row) before this one
+		other.AddRowItems("a")
+		other.AddRowItems("b")
+		other.AddRow(r)
+		ht.AddRow(r)
+		ht.AddRowItems("x")
+		wantGen = []int{0, 1, 2}
+	case 1: // added to this table first, then to the other one at another position
+		ht.AddRowItems("x")
+		ht.AddRow(r)
+		other.AddRowItems("a")
+		other.AddRowItems("b")
+		other.AddRowItems("c")
+		other.AddRow(r)
+		wantGen = []int{0, 1, 2}
+	case 2: // twice in this table, a separator in between
+		ht.AddRow(r)
+		ht.AddSeparator()
+		ht.AddRow(r)
+		ht.AddRowItems("x")
+		wantGen = []int{0, 1, 3, 4}
+	}
+	var genLog []int
+	ht.SetRowClassGenerator(func(rowNum int, ctx interface{}) template.HTMLAttr {
+		genLog = append(genLog, rowNum)
+		return template.HTMLAttr("k")
+	}, nil)
+	_, err := ht.Render()
+	vfAssert(err == nil, "render-ok")
+	vfAssert(len(genLog) == len(wantGen), "generator-called-once-per-emitted-row")
+	if len(genLog) == len(wantGen) {
+		for i := range genLog {
+			vfAssert(genLog[i] == wantGen[i], "generator-row-numbers")
+		}
+	}
 }
